@@ -77,6 +77,8 @@ pub struct ConfigLimits {
     pub allow_keccak: bool,
     pub allow_zk: bool,
     pub min_routed: usize,
+    /// lower bound on the number of FRI query rounds (used by negative tests that need margin)
+    pub min_queries: usize,
 }
 
 impl Default for ConfigLimits {
@@ -88,6 +90,7 @@ impl Default for ConfigLimits {
             allow_keccak: true,
             allow_zk: true,
             min_routed: 28,
+            min_queries: 1,
         }
     }
 }
@@ -118,7 +121,7 @@ pub fn elaborate_config(raw: &RawConfig, lim: &ConfigLimits) -> ElabConfig {
     let cap_height = frac(raw.cap, 5);
     let proof_of_work_bits = frac(raw.pow, lim.max_pow as usize + 1) as u32;
     let maxq = if zero_knowledge { lim.max_queries_zk } else { lim.max_queries };
-    let num_query_rounds = 1 + frac(raw.queries, maxq);
+    let num_query_rounds = (1 + frac(raw.queries, maxq)).max(lim.min_queries);
     let (reduction_strategy, fixed_request) = match frac(raw.strat, 4) {
         0 | 1 => {
             let a = 1 + frac(raw.arity, 4);
